@@ -165,6 +165,24 @@ def check_parallel_eviction(ctx, rule):
     ctx.ob(rule, fc, "the two parallel cache lists are trimmed at the same end (same pop arguments), so keys and components stay aligned", okp, construct="parallel eviction",
            detail="" if okp else str([src(p) for p in pops]), analysis="FIELD sibling agreement")
     ctx.ob(rule, fc, "the two parallel cache lists are filled at the same position", oki, construct="parallel insertion", detail="" if oki else str([src(p) for p in ins]), analysis="FIELD sibling agreement")
+    # what is cached is what is returned: no definition of the component intervenes between the insertion and the return
+    cfg = ctx.cfg(fc)
+    rd = ReachingDefs(cfg, params=fc.params)
+    ins_nodes = [n for n in cfg.live_nodes() if n.kind == "stmt" and isinstance(n.ast, ast.Expr) and isinstance(n.ast.value, ast.Call) and isinstance(n.ast.value.func, ast.Attribute)
+                 and n.ast.value.func.attr == "insert" and "_cachecomp" in src(n.ast.value.func.value) and len(n.ast.value.args) == 2 and isinstance(n.ast.value.args[1], ast.Name)]
+    rets = [n for n in cfg.live_nodes() if n.kind == "stmt" and isinstance(n.ast, ast.Return) and isinstance(n.ast.value, ast.Name)]
+    okc = bool(ins_nodes)
+    det = ""
+    for i_ in ins_nodes:
+        v_ = i_.ast.value.args[1].id
+        after = [r for r in rets if r in cfg.reach([i_]) and r.ast.value.id == v_]
+        if not after:
+            okc, det = False, "the cached name `%s` is not the one returned after the insertion" % v_
+        for r in after:
+            if rd.at(r, v_) != rd.at(i_, v_):
+                okc, det = False, "`%s` is redefined between its insertion into the cache (L%d) and its return (L%d): a later lookup gets a different component" % (v_, i_.lineno, r.lineno)
+    ctx.ob(rule, fc, "the component put into the cache for a wall time is the component returned for it", okc, construct="cached value == returned value", detail=det,
+           analysis="reaching definitions at the insertion vs at the return")
     # eviction end must be opposite to the insertion end (oldest entry leaves)
     if okp and oki:
         at_front = src(ins[0].args[0]) == "0"
